@@ -60,7 +60,7 @@ def gen_traffic(draw_int, draw_choice, direction, many=False):
                 fed[sid] = len(d)
 
     names = [b"x-a", b"x-b", b"user-agent", b"accept", b"x-long-" + b"n" * 20, b"cookie", b"x-c"]
-    values = [b"v1", b"value-two", b"", b"z" * 40, b"a b", b"\xc3\xa9", b"0", b"text/html; charset=utf-8", b"caf\xe9 \xff\xfe"]  # (the last one is not UTF-8)
+    values = [b"v1", b"value-two", b"", b"z" * 40, b"a b", b"\xc3\xa9", b"0", b"text/html; charset=utf-8", b"caf\xe9 \xff\xfe", b"demo/1.0\t(tab inside)", b"x\x01y\x1fz\x7f"]  # (the last one is not UTF-8)
     submitted = {}
     marks = {}
     nmsg = draw_int(1, 4)
